@@ -5,6 +5,7 @@ package main
 import (
 	"bufio"
 	"fmt"
+	"os"
 	"sort"
 	"strings"
 	"time"
@@ -181,6 +182,9 @@ func (x *fcWorld) sSendWin(i int) int64 {
 
 func (x *fcWorld) sSent(i int, n int64) {
 	st := x.streams[i]
+	if n < 0 || n > int64(st.fc.SendWindowSize()) {
+		x.disc = false // the caller discipline of the monitors is broken from here on
+	}
 	st.fc.AddBytesSent(protocol.ByteCount(n))
 	st.sent += n
 	x.emit(u.App("SSent", u.Z(int64(i)), u.Z(n)), fmt.Sprintf("s%d.AddBytesSent(%d)", i, n), 0, 0)
@@ -298,6 +302,9 @@ func (x *fcWorld) sRecv(i int, off int64, final bool) {
 
 func (x *fcWorld) sRead(i int, n int64) {
 	st := x.streams[i]
+	if ss, _ := flowcontrol.VerifStreamState(st.fc); n < 0 || ss[flowcontrol.VBytesRead]+n > ss[flowcontrol.VHighestReceived] {
+		x.disc = false
+	}
 	hs, hc := st.fc.AddBytesRead(protocol.ByteCount(n))
 	st.credit += n
 	x.emit(u.App("SRead", u.Z(int64(i)), u.Z(n)), fmt.Sprintf("s%d.AddBytesRead(%d)", i, n), fcB2i(hs), fcB2i(hc))
@@ -640,6 +647,85 @@ func runFlowCtlCase(w *bufio.Writer, r *u.Rng, caseNo int, dist map[string]int) 
 	dist["monitored-states"] += x.nMon
 }
 
+// fcEnumUniverse: EXHAUSTIVE small universe (thorough tier): every op sequence up to maxLen over
+// the alphabet, on a fresh connection controller (window 3, max 6, MAX_DATA 1) with two streams
+// (windows 2/max 4/limit 1 and 3/max 3/limit 2). Validation of the model on ALL short histories
+// around the smallest windows, not a proof.
+func fcEnumUniverse(w *bufio.Writer, name string, alphabet []func(x *fcWorld), maxLen int, dist map[string]int) {
+	seq := make([]int, 0, maxLen)
+	runOne := func() {
+		x := &fcWorld{w: w, r: u.NewRng(7), fails: map[string]bool{}, cBlocked: map[int64]int{}, kind: "enum", disc: true}
+		defer func() {
+			if e := recover(); e != nil {
+				fmt.Fprintf(w, "MONFAIL\tflowctl/panic\tpanic: %v\t%s\n", e, strings.Join(x.human, " ; "))
+			}
+		}()
+		x.rtt = utils.NewRTTStats()
+		x.now = 1000000000
+		cw, cmax := int64(3), int64(6)
+		x.cAdv, x.cLastRWS, x.cInitRWS, x.cMaxRWS = cw, cw, cw, cmax
+		x.conn = flowcontrol.NewConnectionFlowController(protocol.ByteCount(cw), protocol.ByteCount(cmax),
+			func(size protocol.ByteCount) bool { x.allowDelta = int64(size); return x.allowAns }, x.rtt, utils.DefaultLogger)
+		x.cUpdSend(1)
+		x.newStream(2, 4, 1)
+		x.newStream(3, 3, 2)
+		for _, k := range seq {
+			x.now += 1000000 // 1 ms per op: far below the RTT, so auto-tuning grows whenever it may
+			alphabet[k](x)
+			x.checkState()
+		}
+		cs := flowcontrol.VerifConnState(x.conn)
+		var sts []string
+		for _, st := range x.streams {
+			ss, fin := flowcontrol.VerifStreamState(st.fc)
+			sts = append(sts, u.Pair(fcDump(ss), u.B(fin)))
+		}
+		fmt.Fprintf(w, "CASE 1 %s\n", u.App("FC", u.Z(cw), u.Z(cmax), u.List(x.ops), u.List(x.rets), fcDump(cs), u.List(sts)))
+		dist["enum:"+name]++
+	}
+	var rec func()
+	rec = func() {
+		if len(seq) > 0 {
+			runOne()
+		}
+		if len(seq) == maxLen {
+			return
+		}
+		for k := range alphabet {
+			seq = append(seq, k)
+			rec()
+			seq = seq[:len(seq)-1]
+		}
+	}
+	rec()
+}
+
+func fcEnumAll(w *bufio.Writer, dist map[string]int) {
+	send := []func(x *fcWorld){
+		func(x *fcWorld) { x.sSent(0, 1) }, func(x *fcWorld) { x.sSent(1, 1) }, func(x *fcWorld) { x.sSent(1, 2) },
+		func(x *fcWorld) { x.sUpdSend(0, 2) }, func(x *fcWorld) { x.cUpdSend(2) }, func(x *fcWorld) { x.cUpdSend(3) },
+		func(x *fcWorld) { x.sBlocked(0); x.sSendWin(0) }, func(x *fcWorld) { x.cBlockedOp() },
+	}
+	recv := []func(x *fcWorld){
+		func(x *fcWorld) { x.sRecv(0, 1, false) }, func(x *fcWorld) { x.sRecv(0, 2, false) }, func(x *fcWorld) { x.sRecv(0, 3, true) },
+		func(x *fcWorld) { x.sRecv(1, 3, false) }, func(x *fcWorld) { x.sRead(0, 1) }, func(x *fcWorld) { x.sAbandon(0) },
+		func(x *fcWorld) { x.sWinUpd(0) }, func(x *fcWorld) { x.cWinUpd() },
+	}
+	mixed := []func(x *fcWorld){
+		func(x *fcWorld) { x.sSent(0, 1) }, func(x *fcWorld) { x.sRecv(0, 2, false) }, func(x *fcWorld) { x.sRead(0, 2) },
+		func(x *fcWorld) { x.sWinUpd(0); x.cWinUpd() }, func(x *fcWorld) {
+			x.cReset()
+			if len(x.streams) == 0 { // 0-RTT rejected: the streams are opened again
+				x.newStream(2, 4, 1)
+				x.newStream(3, 3, 2)
+			}
+		}, func(x *fcWorld) { x.sRecv(1, 2, true); x.sAbandon(1) },
+	}
+	fcEnumUniverse(w, "send<=5", send, 5, dist)
+	fcEnumUniverse(w, "recv<=5", recv, 5, dist)
+	fcEnumUniverse(w, "mixed<=6", mixed, 6, dist)
+}
+
 func runFlowCtl(w *bufio.Writer, seed uint64, n int, _ []string) {
 	// NewRng(seed) and NewRng(seed+1) produce the same Fork sequence shifted by one case;
 	// re-seed from a mixed value so that different seeds give unrelated case sets.
@@ -647,6 +733,9 @@ func runFlowCtl(w *bufio.Writer, seed uint64, n int, _ []string) {
 	dist := map[string]int{}
 	for i := 0; i < n; i++ {
 		runFlowCtlCase(w, r.Fork(), i, dist)
+	}
+	if os.Getenv("VERIF_TIER") == "thorough" || os.Getenv("VERIF_FC_ENUM") == "1" {
+		fcEnumAll(w, dist)
 	}
 	keys := make([]string, 0, len(dist))
 	for k := range dist {
